@@ -68,10 +68,11 @@ type Contract struct {
 	CasesExpr    string   // cases <expr> in lo..hi: the function is verified once per value (a proof-search tactic; coverage is an obligation)
 	CasesLo      int
 	CasesHi      int
-	BranchSplit  bool    // `branch-split`: an obligation the solvers leave undecided is retried per branch of the enclosing ifs (proof search only)
-	Sequential   bool    // `sequential`: later invariant / ensures clauses may assume earlier ones (each stays an obligation of its own)
-	CasesElse    bool    // `cases e in lo..hi else`: one more run for e outside lo..hi (then no coverage obligation is needed)
-	caseCover    *Clause // set on the first case run: lo <= expr <= hi follows from the requires
+	SplitVars    []Clause // function-level `splitvar`: case split on the skolemised bound variable of quantified ensures (proof search only)
+	BranchSplit  bool     // `branch-split`: an obligation the solvers leave undecided is retried per branch of the enclosing ifs (proof search only)
+	Sequential   bool     // `sequential`: later invariant / ensures clauses may assume earlier ones (each stays an obligation of its own)
+	CasesElse    bool     // `cases e in lo..hi else`: one more run for e outside lo..hi (then no coverage obligation is needed)
+	caseCover    *Clause  // set on the first case run: lo <= expr <= hi follows from the requires
 	caseNote     string
 	WitnessFrom  map[string]string // witness name -> callee contract that supplies it
 	FreshResult  bool
@@ -589,6 +590,8 @@ func (e *Engine) loadContracts() error {
 						case "splitvar":
 							if curLoop != nil {
 								curLoop.SplitVars = append(curLoop.SplitVars, cl)
+							} else {
+								cur.SplitVars = append(cur.SplitVars, cl)
 							}
 						}
 					}
